@@ -13,7 +13,7 @@ const char *opk_name(int k);
 // planted failure kinds (C05)
 enum PfKind { PF_LoopCreateInvalid, PF_LoopCreateDupExisting, PF_LoopCreateDupSelf, PF_AddPacketForeign, PF_AddPacketEmpty, PF_AddPacketScalar2,
     PF_BlockDup, PF_BlockInvalid, PF_FrameDup, PF_FrameInvalid, PF_AddItemDup, PF_AddItemInvalid, PF_SetValueInvalid, PF_SetCatReserved,
-    PF_RemoveMissing, PF_IterUpdateForeign, PF_AddPacketStale, PF_COUNT };
+    PF_RemoveMissing, PF_IterUpdateForeign, PF_AddPacketStale, PF_SetValueStrandedScalar, PF_COUNT };
 
 struct NameRef { int cls = 0, variant = 0, invalid = -1; };
 
@@ -102,7 +102,7 @@ struct ApiRun {
     void op_loop_destroy(const Op &o); void op_loop_cat(const Op &o); void op_loop_names(const Op &o); void op_loop_set_cat(const Op &o);
     void op_loop_add_item(const Op &o); void op_loop_add_packet(const Op &o);
     void op_iter_open(const Op &o); void op_iter_next(const Op &o); void op_iter_update(const Op &o); void op_iter_remove(const Op &o); void op_iter_end(const Op &o, bool abort, bool after_fault = false);
-    void op_handle_free(const Op &o); void op_walk(const Op &o); void op_checkpoint(const Op &o); void op_plant_fail(const Op &o); void op_packet_new(const Op &o);
+    void op_handle_free(const Op &o); void op_walk(const Op &o); void op_checkpoint(const Op &o); void op_plant_fail(const Op &o); void plant_stranded_scalar(const Op &o, int ci); void op_packet_new(const Op &o);
     void op_parse_into(const Op &o);
     // helpers
     int build_packet(const Op &o, MLoop *target, HPacket &out, bool &foreign, bool &empty);
